@@ -20,7 +20,7 @@ import (
 
 type sview struct {
 	Ext  int  // the block extends the Ext-th newest certified block the leader holds a genuine certificate for (0 = newest)
-	Aud  int  // 0 all honest replicas, 1 the victims only, 2 the others only
+	Aud  int  // 0 all honest replicas, 1 the victims only, 2 the others only; >= 8: bit i of Aud-8 = the i-th honest replica gets the block (any subset)
 	Ext2 int  // >= 0: equivocation; the victims get the block on Ext, the others a second block on Ext2
 	Late bool // the receivers' view timers fire first (their timeout messages are in flight), then the block arrives
 }
@@ -31,8 +31,10 @@ type stratCase struct {
 	Victims int // number of honest replicas in the victim group (1..f)
 	Warm    int // honest-looking views first (newest certificate, everybody, no timeouts)
 	Views   []sview
-	Tail    int // audience of the closing views (newest certificate): 0 everybody, 2 the others only
+	Tail    int // audience of the closing views (newest certificate): 0 everybody, 2 the others only (or a subset, see sview.Aud)
 	TailLen int
+	Iso       bool `json:",omitempty"` // messages between the victims and the other honest replicas are lost throughout (the Byzantine leader reaches both sides, and block fetches reach only what is reachable)
+	ServeBack int  `json:",omitempty"` // > 0: the leader answers block fetches only for blocks of the last ServeBack views
 }
 
 type stratRun struct {
@@ -44,6 +46,8 @@ type stratRun struct {
 	qcFor   map[hotstuff.Hash]hotstuff.QuorumCert
 	myTO    map[hotstuff.View][]hotstuff.TimeoutMsg // the actors' own (unsent) timeout messages per view
 	forks   int
+	iso       bool
+	serveBack int
 }
 
 // assemble turns every block with a quorum of votes (honest votes seen on the wire plus the actors' own) into a certificate.
@@ -162,7 +166,13 @@ func (r *stratRun) aggFor(v hotstuff.View, qc hotstuff.QuorumCert) *hotstuff.Agg
 
 func (r *stratRun) audience(aud int) []*Stack {
 	var l []*Stack
-	for _, st := range r.honest {
+	for i, st := range r.honest {
+		if aud >= 8 {
+			if (aud-8)&(1<<uint(i)) != 0 {
+				l = append(l, st)
+			}
+			continue
+		}
 		if aud == 0 || (aud == 1) == r.victims[st.Idx] {
 			l = append(l, st)
 		}
@@ -199,6 +209,13 @@ func (r *stratRun) propose(v hotstuff.View, ext hotstuff.QuorumCert, to []*Stack
 // view plays one view of the strategy; all honest replicas are in view v when it starts and in v+1 when it ends.
 func (r *stratRun) view(v hotstuff.View, s sview, timeouts bool) {
 	cl, a := r.cl, r.a
+	if r.serveBack > 0 {
+		a.ServeFetch = true
+		a.ServeFrom = 0
+		if v > hotstuff.View(r.serveBack) {
+			a.ServeFrom = v - hotstuff.View(r.serveBack)
+		}
+	}
 	r.assemble()
 	held := r.held()
 	pickQC := func(k int) hotstuff.QuorumCert {
@@ -241,6 +258,32 @@ func (r *stratRun) view(v hotstuff.View, s sview, timeouts bool) {
 	}
 	cl.Burst(8)
 	a.learn()
+	if r.iso {
+		// the honest groups do not hear each other's timeouts; the leader, who hears everybody, hands all of them the
+		// timeout certificate of the view (its own signature included) - an honest leader would do the same
+		var msgs []hotstuff.TimeoutMsg
+		seen := map[hotstuff.ID]bool{}
+		for _, t := range r.myTO[v] {
+			if !seen[t.ID] {
+				seen[t.ID] = true
+				msgs = append(msgs, t)
+			}
+		}
+		for _, t := range a.Timeouts {
+			if t.View == v && !seen[t.ID] {
+				seen[t.ID] = true
+				msgs = append(msgs, t)
+			}
+		}
+		if len(msgs) >= cl.Quorum() {
+			if tc, err := r.lead.Auth.CreateTimeoutCert(v, msgs[:cl.Quorum()]); err == nil {
+				for _, st := range r.honest {
+					a.send(r.lead, st, hotstuff.NewViewMsg{ID: r.lead.ID, SyncInfo: hotstuff.NewSyncInfoWith(tc)})
+				}
+				cl.Burst(4)
+			}
+		}
+	}
 }
 
 func stratProp(c stratCase) common.Result { return stratRunWith(c, "C01") }
@@ -253,14 +296,14 @@ func stratRunWith(c stratCase, prop string) common.Result {
 	for i := 0; i < f; i++ {
 		actors = append(actors, c.N-i)
 	}
-	cfg := Config{N: c.N, Rules: c.Rules, Crypto: "fast", Batch: 1, Actors: actors, Leaders: []int{c.N}}
+	cfg := Config{N: c.N, Rules: c.Rules, Crypto: "fast", Batch: 1, Actors: actors, Leaders: []int{c.N}, ActorBridges: c.Iso}
 	cl, err := New(cfg)
 	if err != nil {
 		return common.Fail("harness", "cluster: %v", err)
 	}
 	defer cl.Close()
 	cl.Start()
-	r := &stratRun{cl: cl, a: cl.Actor, victims: map[int]bool{}, qcFor: map[hotstuff.Hash]hotstuff.QuorumCert{}, myTO: map[hotstuff.View][]hotstuff.TimeoutMsg{}}
+	r := &stratRun{cl: cl, a: cl.Actor, victims: map[int]bool{}, qcFor: map[hotstuff.Hash]hotstuff.QuorumCert{}, myTO: map[hotstuff.View][]hotstuff.TimeoutMsg{}, iso: c.Iso, serveBack: c.ServeBack}
 	for _, st := range cl.Stacks {
 		if st.Kind == "actor" && int(st.ID) == c.N {
 			r.lead = st
@@ -269,6 +312,13 @@ func stratRunWith(c stratCase, prop string) common.Result {
 	r.honest = cl.HonestStacks()
 	for i := 0; i < c.Victims && i < len(r.honest); i++ {
 		r.victims[r.honest[i].Idx] = true
+	}
+	if c.Iso {
+		for i := range r.honest {
+			if r.victims[r.honest[i].Idx] {
+				cl.Part[r.honest[i].Idx] = 1
+			}
+		}
 	}
 	mon := &ledgerMonitor{cl: cl, checked: map[int]int{}}
 	pace := &paceMonitor{cl: cl, prev: map[int]paceState{}, steps: map[int]int{}}
@@ -493,4 +543,50 @@ func TestC03StrategyVotes(t *testing.T) {
 func TestC07StrategyPace(t *testing.T) {
 	common.Exhaustive(t, "C07", "TestC07StrategyPace", func(yield func(stratCase) bool) { enumStrategies(2, yield) },
 		func(c stratCase) common.Result { return stratRunWith(c, "C07") })
+}
+
+// ---- strategies around a replica that cannot look up what it locks -------------------------------------------------------
+//
+// genWithholdStrategy: the honest replicas are split by message loss (the victim hears only the Byzantine leader, who hears
+// and reaches everybody), and the leader answers block fetches only for the newest ServeBack views. The skeleton: some views
+// for the others only; one view for the victim and one of the others (the victim has to fetch the ancestors it missed and gets
+// only the newest); one view for that other replica alone (it completes its chain and commits); then a block that forks off
+// below, shown to the victim and the remaining replica; closing views for those two. Every view of the skeleton is replaced by
+// an arbitrary move with probability 1/6, the fork depth, the number of leading views, the audiences' order and the fetch window
+// are drawn. n = 4: honest replicas 0 (victim), 1, 2 in the audience bit masks.
+func genWithholdStrategy(rt *rapid.T) stratCase {
+	c := stratCase{Rules: rapid.SampledFrom([]string{"chainedhotstuff", "simplehotstuff"}).Draw(rt, "rules"), N: 4, Victims: 1, Iso: true}
+	c.Warm = rapid.IntRange(1, 2).Draw(rt, "warm")
+	c.ServeBack = rapid.IntRange(1, 3).Draw(rt, "serveback")
+	o1, o2 := 2, 4
+	if rapid.Bool().Draw(rt, "swap") {
+		o1, o2 = o2, o1
+	}
+	var sk []sview
+	for i := rapid.IntRange(1, 3).Draw(rt, "others-only"); i > 0; i-- {
+		sk = append(sk, sview{Ext: 0, Aud: 8 + o1 + o2, Ext2: -1})
+	}
+	sk = append(sk, sview{Ext: 0, Aud: 8 + 1 + o1, Ext2: -1})
+	for i := rapid.IntRange(0, 2).Draw(rt, "one-alone"); i > 0; i-- {
+		sk = append(sk, sview{Ext: 0, Aud: 8 + o1, Ext2: -1})
+	}
+	sk = append(sk, sview{Ext: rapid.IntRange(1, 5).Draw(rt, "fork-depth"), Aud: 8 + 1 + o2, Ext2: -1})
+	for i := range sk {
+		if rapid.IntRange(0, 5).Draw(rt, "perturb") == 0 {
+			sk[i] = sview{Ext: rapid.IntRange(0, 4).Draw(rt, "ext"), Aud: 8 + rapid.IntRange(1, 7).Draw(rt, "aud"), Ext2: -1, Late: rapid.Bool().Draw(rt, "late")}
+		}
+	}
+	c.Views = sk
+	c.Tail = 8 + 1 + o2
+	if rapid.IntRange(0, 4).Draw(rt, "tail-all") == 0 {
+		c.Tail = 0
+	}
+	c.TailLen = rapid.IntRange(3, 5).Draw(rt, "taillen")
+	return c
+}
+
+// TestC01WithholdStrategies: the C01 ledger oracle over strategies in which a cut-off replica has to fetch the ancestors of a
+// proposal from the Byzantine leader and is given only some of them.
+func TestC01WithholdStrategies(t *testing.T) {
+	common.Check(t, "C01", "TestC01WithholdStrategies", 3000, 100000, genWithholdStrategy, stratProp)
 }
